@@ -136,8 +136,11 @@ class DPFSLevel3FileIO(RawIOBase):
 
     @_raise_if_level_closed
     def read(self, size: int = -1) -> bytes:
-        if size == -1:
-            size = self._lv3.size - self._seek
+        remaining = max(self._lv3.size - self._seek, 0)
+        if size < 0 or size > remaining:
+            size = remaining
+        if size == 0:
+            return b''
 
         with self._lock:
             data = b''.join(self._lv3.get_data(self._seek, size))
